@@ -21,7 +21,7 @@ func init() {
 	core.Register(&core.Check{
 		ID:    "C02",
 		Level: "exploration",
-		Rule: "three streams of accepted programs executed under the recording platform with the dynamic type-conformance monitor on the verif evaluation hook: (1) generated programs with hostile values (NaN, infinities, -0, huge, fractional, negative numbers; empty and non-ASCII strings; nested composites; values through any; wrong assertions; unsafe indices; every non-graphics built-in), (2) accepted 1-3 token mutants of corpus and generated programs, (3) the corpus; with scripted input and synthetic events for handlers. " +
+		Rule: "three streams of accepted programs executed under the recording platform with the dynamic type-conformance monitor on the verif evaluation hook: (1) generated programs with hostile values (NaN, infinities, -0, huge, fractional, negative numbers; empty and non-ASCII strings; nested composites; values through any; wrong assertions; unsafe indices; every non-graphics built-in), (2) accepted 1-3 token mutants of corpus and generated programs, (3) the corpus, (4) targeted families: == / != between any values of different dynamic types (directly and nested in []any / {}any) and typed functions ending in if/else-if/else chains with returns removed from random branches (whatever the parser accepts is run); with scripted input and synthetic events for handlers. " +
 			"distinct = distinct accepted program texts that executed at least one evaluation step",
 		Assumptions: []string{
 			"allowed ends: normal completion, Evy panic (errors.Is ErrPanic), exit, failed tests, external stop (only the harness's yield budget raises it)",
@@ -227,6 +227,31 @@ func hostileProgram(r *rand.Rand) *gen.Program {
 func c02Run(c *core.Ctx, i int) {
 	p := c.State.(*srcPool)
 	r := c.Rng
+	if i%16 == 15 { // stream 4: targeted families
+		if r.Intn(2) == 0 {
+			c.Cover("stream", "any-equality")
+			soundRun(c, gen.Print(anyEqProgram(r), gen.RandomLayout(rand.New(rand.NewSource(r.Int63())))), "any equality family")
+			return
+		}
+		// functions whose branches may lack a return: whatever the parser accepts must run soundly
+		n := r.Intn(4)
+		drop := map[int]bool{}
+		for k := 0; k <= n+1; k++ {
+			if r.Intn(3) == 0 {
+				drop[k] = true
+			}
+		}
+		src, complete := returnPathsSource(r, n, drop, []string{"num", "string"}[r.Intn(2)])
+		c.Cover("stream", "return-paths")
+		o := soundRun(c, src, "return paths family")
+		if o.Class == "parse-error" {
+			c.Event("return_paths_rejected", 1)
+			if complete {
+				c.Violation("well-typed-program-rejected", "function whose every path returns was rejected: "+firstN(o.ErrText, 200), src, nil)
+			}
+		}
+		return
+	}
 	switch i % 4 {
 	case 0, 1: // stream 1: hostile generated programs under a random layout
 		prog := hostileProgram(r)
